@@ -1,4 +1,5 @@
 CONSTANTS
+  Pool = "all"
   MaxLines = 1
   MaxPerLine = 3
   MaxLexemes = 0
